@@ -7,9 +7,13 @@ from .types import ExpressionToken
 
 
 def wrap_impure(expr, invoke):
+    # The result is remembered so that resolving the same token again does not
+    # repeat the reports, but only for the same arguments: a token inside a
+    # '.repeat' body or a file included twice is evaluated anew for each copy
     def fn(*args):
-        expr.value = invoke(*args)
-        return expr.value
+        if expr.value is None or expr.value[0] != args:
+            expr.value = (args, invoke(*args))
+        return expr.value[1]
     return fn
 
 
@@ -28,9 +32,6 @@ class InfixOperator(ExpressionToken):
         self.value = None
 
     def resolve(self, state):
-        if self.value is not None:
-            return self.value
-
         lhs = self.lhs.resolve(state)
         rhs = self.rhs.resolve(state)
 
@@ -68,9 +69,6 @@ class UnaryOperator(ExpressionToken):
         self.value = None
 
     def resolve(self, state):
-        if self.value is not None:
-            return self.value
-
         operand = self.operand.resolve(state)
 
         invoke = self.fn if self.token else type(self).fn
